@@ -1,5 +1,572 @@
 package main
 
-// Counterexample replay on the real code (filled in later).
+// Counterexample replay on the real code.
+//
+// Scope (stated in DESIGN.md A.3): package-level functions whose parameters are integers, booleans, strings (only the
+// length is taken from the model) or pointers to integers, and whose failed clause is quantifier-free over those
+// parameters, `result`, `old()`, `deref()` and calls of package functions. For such a function the candidate model of
+// the failed obligation is turned into an in-package Go test that builds the inputs, evaluates the Go form of every
+// `requires` (a candidate violating one is spurious), calls the REAL function under recover, and evaluates the Go form of
+// the failed clause (or, for SAFE obligations, observes the panic). The test is injected with `go test -overlay`, so
+// nothing is written to the repository. A replay that fails on the real code confirms the violation.
 
-func replayObligation(e *Engine, o *Obligation, path string) bool { return false }
+import (
+	"encoding/json"
+	"fmt"
+	"go/types"
+	"os"
+	"os/exec"
+	"path/filepath"
+	"sort"
+	"strconv"
+	"strings"
+
+	"golang.org/x/tools/go/ssa"
+)
+
+type replayParam struct {
+	name  string
+	typ   types.Type
+	kind  string // int | bool | strlen | ptrint
+	model string // name of the SMT constant holding the entry value (length for strings, cell content for pointers)
+}
+
+// replayParams returns the parameter descriptions when fn is inside the replayable subset.
+func replayParams(fn *ssa.Function) ([]replayParam, bool) {
+	if fn.Signature.Recv() != nil || fn.Parent() != nil || fn.Pkg == nil || len(fn.FreeVars) > 0 {
+		return nil, false
+	}
+	if fn.Signature.Variadic() {
+		return nil, false
+	}
+	var ps []replayParam
+	for _, p := range fn.Params {
+		rp := replayParam{name: p.Name(), typ: p.Type()}
+		switch u := types.Unalias(p.Type()).Underlying().(type) {
+		case *types.Basic:
+			switch {
+			case u.Info()&types.IsInteger != 0:
+				rp.kind = "int"
+			case u.Info()&types.IsBoolean != 0:
+				rp.kind = "bool"
+			case u.Info()&types.IsString != 0:
+				rp.kind = "strlen"
+			default:
+				return nil, false
+			}
+		case *types.Pointer:
+			b, ok := types.Unalias(u.Elem()).Underlying().(*types.Basic)
+			if !ok || b.Info()&types.IsInteger == 0 {
+				return nil, false
+			}
+			rp.kind = "ptrint"
+		default:
+			return nil, false
+		}
+		ps = append(ps, rp)
+	}
+	res := fn.Signature.Results()
+	for i := 0; i < res.Len(); i++ {
+		b, ok := types.Unalias(res.At(i).Type()).Underlying().(*types.Basic)
+		if !ok || b.Info()&(types.IsInteger|types.IsBoolean) == 0 {
+			return nil, false
+		}
+	}
+	return ps, true
+}
+
+// goForm translates a spec expression into Go source over `int` and `bool` (integers of every width are widened to int;
+// / and % are the Euclidean operations of the SMT encoding). Returns ok=false outside the translatable subset.
+type goFormer struct {
+	e      *Engine
+	fn     *ssa.Function
+	params map[string]replayParam
+	olds   []string // hoisted old() expressions: old_k := <expr> evaluated before the call
+	post   bool     // translating a postcondition (result / current values allowed)
+}
+
+func (g *goFormer) isBool(x *Expr) bool {
+	switch x.Op {
+	case "true", "false", "un!", "==", "!=", "<", "<=", ">", ">=", "&&", "||", "==>", "<==>":
+		return true
+	case "id":
+		if p, ok := g.params[x.Name]; ok {
+			return p.kind == "bool"
+		}
+	case "result":
+		res := g.fn.Signature.Results()
+		i := 0
+		if x.Name != "" {
+			i = int(x.Name[0] - '0')
+		}
+		if i < res.Len() {
+			b, ok := res.At(i).Type().Underlying().(*types.Basic)
+			return ok && b.Info()&types.IsBoolean != 0
+		}
+	case "call":
+		if f := g.pkgFunc(x.Name); f != nil && f.Signature.Results().Len() == 1 {
+			b, ok := f.Signature.Results().At(0).Type().Underlying().(*types.Basic)
+			return ok && b.Info()&types.IsBoolean != 0
+		}
+	case "ite":
+		return g.isBool(x.Args[1])
+	case "old":
+		return g.isBool(x.Args[0])
+	}
+	return false
+}
+
+func (g *goFormer) pkgFunc(name string) *ssa.Function {
+	if g.fn.Pkg == nil {
+		return nil
+	}
+	f, _ := g.fn.Pkg.Members[name].(*ssa.Function)
+	if f == nil {
+		return nil
+	}
+	if _, ok := replayParams(f); !ok {
+		return nil
+	}
+	return f
+}
+
+func (g *goFormer) form(x *Expr, inOld bool) (string, bool) {
+	bin := func(op string) (string, bool) {
+		a, ok1 := g.form(x.Args[0], inOld)
+		b, ok2 := g.form(x.Args[1], inOld)
+		return "(" + a + " " + op + " " + b + ")", ok1 && ok2
+	}
+	switch x.Op {
+	case "int":
+		return "int(" + x.Int.String() + ")", x.Int.IsInt64()
+	case "true", "false":
+		return x.Op, true
+	case "id":
+		p, ok := g.params[x.Name]
+		if !ok {
+			// package-level integer constant
+			if g.fn.Pkg != nil {
+				if c, isC := g.fn.Pkg.Members[x.Name].(*ssa.NamedConst); isC {
+					if b, okb := c.Type().Underlying().(*types.Basic); okb && b.Info()&types.IsInteger != 0 {
+						return "int(" + x.Name + ")", true
+					}
+				}
+			}
+			return "", false
+		}
+		suffix := ""
+		if g.post && !inOld {
+			suffix = "" // parameters are not reassigned by the test: entry value == current value of the variable itself
+		}
+		switch p.kind {
+		case "int":
+			return "int(in_" + p.name + suffix + ")", true
+		case "bool":
+			return "in_" + p.name, true
+		}
+		return "", false
+	case "result":
+		if !g.post || inOld {
+			return "", false
+		}
+		i := 0
+		if x.Name != "" {
+			i = int(x.Name[0] - '0')
+		}
+		if g.isBool(x) {
+			return fmt.Sprintf("r%d", i), true
+		}
+		return fmt.Sprintf("int(r%d)", i), true
+	case "un!":
+		a, ok := g.form(x.Args[0], inOld)
+		return "(!" + a + ")", ok
+	case "un-":
+		a, ok := g.form(x.Args[0], inOld)
+		return "(-" + a + ")", ok
+	case "+", "-", "*":
+		return bin(x.Op)
+	case "/":
+		a, ok1 := g.form(x.Args[0], inOld)
+		b, ok2 := g.form(x.Args[1], inOld)
+		return "gvDiv(" + a + ", " + b + ")", ok1 && ok2
+	case "%":
+		a, ok1 := g.form(x.Args[0], inOld)
+		b, ok2 := g.form(x.Args[1], inOld)
+		return "gvMod(" + a + ", " + b + ")", ok1 && ok2
+	case "==", "!=":
+		if g.isBool(x.Args[0]) != g.isBool(x.Args[1]) {
+			return "", false
+		}
+		return bin(x.Op)
+	case "<", "<=", ">", ">=", "&&", "||":
+		return bin(x.Op)
+	case "==>":
+		a, ok1 := g.form(x.Args[0], inOld)
+		b, ok2 := g.form(x.Args[1], inOld)
+		return "(!" + a + " || " + b + ")", ok1 && ok2
+	case "<==>":
+		a, ok1 := g.form(x.Args[0], inOld)
+		b, ok2 := g.form(x.Args[1], inOld)
+		return "(" + a + " == " + b + ")", ok1 && ok2
+	case "ite":
+		c, ok1 := g.form(x.Args[0], inOld)
+		a, ok2 := g.form(x.Args[1], inOld)
+		b, ok3 := g.form(x.Args[2], inOld)
+		t := "int"
+		if g.isBool(x.Args[1]) {
+			t = "bool"
+		}
+		return fmt.Sprintf("func() %s { if %s { return %s }; return %s }()", t, c, a, b), ok1 && ok2 && ok3
+	case "old":
+		if !g.post {
+			return g.form(x.Args[0], true)
+		}
+		s, ok := g.form(x.Args[0], true)
+		if !ok {
+			return "", false
+		}
+		name := fmt.Sprintf("old_%d", len(g.olds))
+		g.olds = append(g.olds, name+" := "+s)
+		return name, true
+	case "call":
+		switch x.Name {
+		case "deref":
+			if len(x.Args) == 1 && x.Args[0].Op == "id" {
+				if p, ok := g.params[x.Args[0].Name]; ok && p.kind == "ptrint" {
+					if inOld || !g.post {
+						return "int(cell0_" + p.name + ")", true
+					}
+					return "int(*in_" + p.name + ")", true
+				}
+			}
+			return "", false
+		case "len":
+			if len(x.Args) == 1 && x.Args[0].Op == "id" {
+				if p, ok := g.params[x.Args[0].Name]; ok && p.kind == "strlen" {
+					return "len(in_" + p.name + ")", true
+				}
+			}
+			return "", false
+		case "min", "max":
+			if len(x.Args) == 2 {
+				a, ok1 := g.form(x.Args[0], inOld)
+				b, ok2 := g.form(x.Args[1], inOld)
+				return "gv" + strings.Title(x.Name) + "(" + a + ", " + b + ")", ok1 && ok2
+			}
+			return "", false
+		}
+		f := g.pkgFunc(x.Name)
+		if f == nil || len(f.Params) != len(x.Args) || f.Signature.Results().Len() != 1 {
+			// non-recursive spec function without quantifiers: expand it
+			if d, ok := g.e.db.Defines[x.Name]; ok && len(d.Params) == len(x.Args) && d.Body != nil {
+				return g.expand(d, x.Args, inOld)
+			}
+			return "", false
+		}
+		var as []string
+		for i, a := range x.Args {
+			s, ok := g.form(a, inOld)
+			if !ok {
+				return "", false
+			}
+			pt := f.Params[i].Type()
+			b, okb := types.Unalias(pt).Underlying().(*types.Basic)
+			if !okb {
+				return "", false
+			}
+			if b.Info()&types.IsInteger != 0 {
+				as = append(as, types.TypeString(pt, func(*types.Package) string { return "" })+"("+s+")")
+			} else {
+				as = append(as, s)
+			}
+		}
+		call := x.Name + "(" + strings.Join(as, ", ") + ")"
+		if g.isBool(x) {
+			return call, true
+		}
+		return "int(" + call + ")", true
+	}
+	return "", false
+}
+
+// expand inlines a `define` whose body is itself translatable (parameters substituted textually through a closure).
+func (g *goFormer) expand(d *Define, args []*Expr, inOld bool) (string, bool) {
+	sub := map[string]*Expr{}
+	for i, p := range d.Params {
+		sub[p.Name] = args[i]
+	}
+	body := substExpr(d.Body, sub)
+	return g.form(body, inOld)
+}
+
+func substExpr(x *Expr, sub map[string]*Expr) *Expr {
+	if x == nil {
+		return nil
+	}
+	if x.Op == "id" {
+		if r, ok := sub[x.Name]; ok {
+			return r
+		}
+		return x
+	}
+	n := *x
+	n.Src = ""
+	n.Args = make([]*Expr, len(x.Args))
+	for i, a := range x.Args {
+		n.Args[i] = substExpr(a, sub)
+	}
+	return &n
+}
+
+func modelInt(s string) (int64, bool) {
+	s = strings.TrimSpace(s)
+	neg := false
+	if strings.HasPrefix(s, "(-") {
+		neg = true
+		s = strings.TrimSpace(strings.TrimSuffix(strings.TrimPrefix(s, "(-"), ")"))
+	}
+	v, err := strconv.ParseInt(s, 10, 64)
+	if err != nil {
+		return 0, false
+	}
+	if neg {
+		v = -v
+	}
+	return v, true
+}
+
+// replayObligation: see the package comment. path is the .txt replay file of the obligation; on success the Go test and
+// its transcript are stored next to it and appended to it.
+func replayObligation(e *Engine, o *Obligation, path string) bool {
+	dbg := func(msg string) bool {
+		if os.Getenv("GVERIF_DEBUG") != "" {
+			fmt.Fprintln(os.Stderr, "replay:", o.Name, msg)
+		}
+		return false
+	}
+	if o.vc == nil || o.vc.fn == nil || o.Static || o.RawQuery != "" {
+		return dbg("not a function obligation")
+	}
+	if o.Model == nil {
+		o.Model = map[string]string{}
+	}
+	fn := o.vc.fn
+	ps, ok := replayParams(fn)
+	if !ok || len(o.vc.replayIn) != len(ps) {
+		return dbg(fmt.Sprintf("outside the replayable subset (ok=%v, inputs=%d, params=%d)", ok, len(o.vc.replayIn), len(ps)))
+	}
+	if o.Kind != "POST" && o.Kind != "SAFE" {
+		return false
+	}
+	g := &goFormer{e: e, fn: fn, params: map[string]replayParam{}}
+	// candidate pools: the model value first (so the solver's candidate is tried first), then boundary values and the
+	// integer literals of the contract (+-1): a small-scope witness search used when the model itself does not replay
+	lits := map[int64]bool{}
+	var collect func(x *Expr)
+	collect = func(x *Expr) {
+		if x == nil {
+			return
+		}
+		if x.Op == "int" && x.Int.IsInt64() {
+			v := x.Int.Int64()
+			lits[v-1], lits[v], lits[v+1] = true, true, true
+		}
+		for _, a := range x.Args {
+			collect(a)
+		}
+	}
+	for _, r := range o.vc.ct.Requires {
+		collect(r.E)
+	}
+	for _, r := range o.vc.ct.Ensures {
+		collect(r.E)
+	}
+	basePool := []int64{0, 1, 2, 3, -1, -2, 7, 8, 63, 64, 127, 128, 255, 256, 257, 511, 512, 1023, 65535, 65536, 131071, 131072, 262143, 262144,
+		1 << 25, 1<<26 - 1, 1 << 26, 1<<31 - 1, 1 << 31, 1<<32 - 1, 0x55555555, 0xaaaaaaaa, 0xfe03ffff, 0x01fc0000, 0x02000000}
+	var litList []int64
+	for v := range lits {
+		litList = append(litList, v)
+	}
+	sort.Slice(litList, func(a, b int) bool { return litList[a] < litList[b] })
+	poolOf := func(first int64, has bool, small bool) string {
+		seen := map[int64]bool{}
+		var vs []string
+		add := func(v int64) {
+			if !seen[v] {
+				seen[v] = true
+				vs = append(vs, fmt.Sprint(v))
+			}
+		}
+		if has {
+			add(first)
+		}
+		if small {
+			for v := int64(0); v <= 6; v++ {
+				add(v)
+			}
+		} else {
+			for _, v := range basePool {
+				add(v)
+			}
+		}
+		for _, v := range litList {
+			if !small || (v >= 0 && v <= 64) {
+				add(v)
+			}
+		}
+		return "[]int{" + strings.Join(vs, ", ") + "}"
+	}
+	var loops, closers []string
+	nLoops := 0
+	for i := range ps {
+		ps[i].model = o.vc.replayIn[i]
+		g.params[ps[i].name] = ps[i]
+		val, has := o.Model[ps[i].model]
+		ts := types.TypeString(ps[i].typ, func(*types.Package) string { return "" })
+		v, okv := modelInt(val)
+		has = has && okv
+		switch ps[i].kind {
+		case "int":
+			loops = append(loops, fmt.Sprintf("for _, v_%s := range %s {\nin_%s := %s(v_%s)", ps[i].name, poolOf(v, has, false), ps[i].name, ts, ps[i].name))
+			nLoops++
+		case "bool":
+			first := "false, true"
+			if val == "true" {
+				first = "true, false"
+			}
+			loops = append(loops, fmt.Sprintf("for _, in_%s := range []bool{%s} {", ps[i].name, first))
+			nLoops++
+		case "strlen":
+			if v > 1<<20 || v < 0 {
+				has = false
+			}
+			loops = append(loops, fmt.Sprintf("for _, v_%s := range %s {\nif v_%s < 0 || v_%s > 1<<20 { continue }\nin_%s := strings.Repeat(\"a\", v_%s)", ps[i].name, poolOf(v, has, true), ps[i].name, ps[i].name, ps[i].name, ps[i].name))
+			nLoops++
+		case "ptrint":
+			et := types.TypeString(ps[i].typ.Underlying().(*types.Pointer).Elem(), func(*types.Package) string { return "" })
+			loops = append(loops, fmt.Sprintf("for _, v_%s := range %s {\ncell0_%s := %s(v_%s)\ncell_%s := cell0_%s\nin_%s := &cell_%s", ps[i].name, poolOf(v, has, false), ps[i].name, et, ps[i].name, ps[i].name, ps[i].name, ps[i].name, ps[i].name))
+			nLoops++
+		}
+		closers = append(closers, "}")
+	}
+	if nLoops > 3 {
+		return dbg("too many parameters for the witness search")
+	}
+	// requires
+	var reqs []string
+	for _, r := range o.vc.ct.Requires {
+		s, okr := g.form(r.E, false)
+		if !okr {
+			return false
+		}
+		reqs = append(reqs, s)
+	}
+	clause := ""
+	if o.Kind == "POST" {
+		if o.Clause == nil {
+			return false
+		}
+		g.post = true
+		s, okc := g.form(o.Clause, false)
+		if !okc {
+			return false
+		}
+		clause = s
+	}
+	var args, rets []string
+	for _, p := range ps {
+		args = append(args, "in_"+p.name)
+	}
+	for i := 0; i < fn.Signature.Results().Len(); i++ {
+		rets = append(rets, fmt.Sprintf("r%d", i))
+	}
+	var sb strings.Builder
+	pkg := fn.Pkg.Pkg.Name()
+	fmt.Fprintf(&sb, "package %s\n\n// generated by gverif: replay of the candidate counterexample of obligation\n//   %s\n// clause: %s\n\nimport (\n\t\"fmt\"\n\t\"strings\"\n\t\"testing\"\n)\n\n", pkg, o.Name, o.Desc)
+	sb.WriteString("var _ = strings.Repeat\nvar _ = fmt.Sprintf\n\n// Euclidean division/remainder, as in the SMT encoding of the spec operators / and %\nfunc gvDiv(a, b int) int { if b == 0 { return 0 }; q, r := a/b, a%b; if r < 0 { if b > 0 { q-- } else { q++ } }; return q }\n")
+	sb.WriteString("func gvMod(a, b int) int { if b == 0 { return a }; return a - gvDiv(a, b)*b }\n")
+	sb.WriteString("func gvMin(a, b int) int { if a < b { return a }; return b }\nfunc gvMax(a, b int) int { if a > b { return a }; return b }\n\n")
+	sb.WriteString("func TestGverifReplay(t *testing.T) {\n\ttried, admissible := 0, 0\n")
+	for _, l := range loops {
+		sb.WriteString("\t" + strings.ReplaceAll(l, "\n", "\n\t") + "\n")
+	}
+	var names []string
+	var fmts []string
+	for _, p := range ps {
+		sb.WriteString("\t_ = in_" + p.name + "\n")
+		switch p.kind {
+		case "ptrint":
+			sb.WriteString("\t_ = cell0_" + p.name + "\n")
+			names = append(names, "cell0_"+p.name)
+			fmts = append(fmts, "*"+p.name+"=%v")
+		case "strlen":
+			names = append(names, "len(in_"+p.name+")")
+			fmts = append(fmts, "len("+p.name+")=%v")
+		default:
+			names = append(names, "in_"+p.name)
+			fmts = append(fmts, p.name+"=%v")
+		}
+	}
+	sb.WriteString("\ttried++\n")
+	for _, r := range reqs {
+		fmt.Fprintf(&sb, "\tif !(%s) {\n\t\tcontinue\n\t}\n", r)
+	}
+	sb.WriteString("\tadmissible++\n")
+	for _, od := range g.olds {
+		sb.WriteString("\t" + od + "\n")
+		sb.WriteString("\t_ = " + strings.SplitN(od, " ", 2)[0] + "\n")
+	}
+	inputDesc := fmt.Sprintf("fmt.Sprintf(%q, %s)", strings.Join(fmts, " "), strings.Join(names, ", "))
+	if len(names) == 0 {
+		inputDesc = "\"(no inputs)\""
+	}
+	sb.WriteString("\tfunc() {\n\t\tdefer func() {\n\t\t\tif r := recover(); r != nil {\n\t\t\t\tt.Fatalf(\"GVERIF-CONFIRMED: the real function panicked: %v; input #%d: %s\", r, tried, " + inputDesc + ")\n\t\t\t}\n\t\t}()\n")
+	call := fn.Name() + "(" + strings.Join(args, ", ") + ")"
+	if len(rets) > 0 {
+		sb.WriteString("\t\t" + strings.Join(rets, ", ") + " := " + call + "\n")
+		for _, r := range rets {
+			sb.WriteString("\t\t_ = " + r + "\n")
+		}
+	} else {
+		sb.WriteString("\t\t" + call + "\n")
+	}
+	if clause != "" {
+		fmt.Fprintf(&sb, "\t\tif !(%s) {\n\t\t\tt.Fatalf(\"GVERIF-CONFIRMED: the clause is false on the real code; input #%%d: %%s\", tried, %s)\n\t\t}\n", clause, inputDesc)
+	}
+	sb.WriteString("\t}()\n")
+	for range closers {
+		sb.WriteString("\t}\n")
+	}
+	sb.WriteString("\tt.Logf(\"GVERIF-NOT-CONFIRMED: %d inputs tried, %d satisfied the precondition, none violated the clause\", tried, admissible)\n}\n")
+	dir := filepath.Dir(path)
+	base := strings.TrimSuffix(filepath.Base(path), ".txt")
+	testFile := filepath.Join(dir, base+"_replay_test.go")
+	if err := os.WriteFile(testFile, []byte(sb.String()), 0o644); err != nil {
+		return false
+	}
+	// overlay: the test appears inside the package directory without being written there
+	pkgDir := e.repo
+	if pkg != "lua" {
+		pkgDir = filepath.Join(e.repo, pkg)
+	}
+	ov := map[string]map[string]string{"Replace": {filepath.Join(pkgDir, "zz_gverif_replay_test.go"): testFile}}
+	ovb, _ := json.Marshal(ov)
+	ovFile := filepath.Join(dir, base+"_overlay.json")
+	os.WriteFile(ovFile, ovb, 0o644)
+	cmd := exec.Command("go", "test", "-overlay", ovFile, "-vet=off", "-count=1", "-timeout", "60s", "-run", "^TestGverifReplay$", ".")
+	cmd.Dir = pkgDir
+	cmd.Env = append(os.Environ(), "GOFLAGS=-mod=mod", "GOPROXY=off", "GOSUMDB=off", "GOTOOLCHAIN=local")
+	out, _ := cmd.CombinedOutput()
+	txt := string(out)
+	confirmed := strings.Contains(txt, "GVERIF-CONFIRMED")
+	status := "not confirmed"
+	if confirmed {
+		status = "CONFIRMED on the real code (input #1 is the solver's candidate; a later input number means it was found by the bounded witness search over boundary values)"
+	}
+	f, err := os.OpenFile(path, os.O_APPEND|os.O_WRONLY, 0o644)
+	if err == nil {
+		fmt.Fprintf(f, "\n--- replay on the real code: %s\ntest: %s\ncommand: (cd %s && go test -overlay %s -vet=off -count=1 -timeout 60s -run '^TestGverifReplay$' .)\n%s\n", status, testFile, pkgDir, ovFile, txt)
+		f.Close()
+	}
+	return confirmed
+}
